@@ -179,6 +179,9 @@ fn value_text() -> BS<String> {
         (3, (0u32..10_000, 0u32..1_000_000, 1usize..7).prop_map(|(i, f, w)| format!("{}.{:0w$}", i, f % 10u32.pow(w as u32), w = w)).boxed()),
         (1, (0u64..1_000_000_000_000).prop_map(|v| v.to_string()).boxed()),
         (1, prop::sample::select(vec!["0", "1", "10.598", "0.5", "3.5", "73.671", "1.0", "12", "2.000000001"]).prop_map(|s| s.to_string()).boxed()),
+        // long decimals (15-40 digits after the point): the nearest double must be taken exactly (a decimal close to the
+        // midpoint of two doubles shows a parser that rounds early)
+        (2, (0u32..1_000, prop::collection::vec(0u8..10, 15..40)).prop_map(|(i, d)| format!("{}.{}", i, d.iter().map(|x| (b'0' + x) as char).collect::<String>())).boxed()),
     ])
 }
 
